@@ -410,6 +410,8 @@ def units():
             Unit("Mesh.find_boundary_indices", "tdgl.finite_volume.mesh:Mesh.find_boundary_indices", lambda m=None: _mc().run_boundary_indices(m), props=["C07"], timeout=300),
             Unit("make_adj_directed_tri_indices", U_ + ":make_adj_directed_tri_indices", lambda m=None: _mc().run_adjacency(m), props=["C07"], timeout=300),
             Unit("get_dual_edge_lengths", U_ + ":get_dual_edge_lengths", lambda m=None: _mc().run_dual_edge_lengths(m), props=["C07"], timeout=300),
+            Unit("tdgl.geometry helpers", "tdgl.geometry:ensure_unique, close_curve",
+                 lambda m=None: __import__("checks.geometry_common", fromlist=["x"]).run_geometry(m, prefixes=("C07.",)), props=["C07", "C18"], timeout=300),
             Unit("Mesh.smooth", "tdgl.finite_volume.mesh:Mesh.smooth", lambda m=None: _mc().run_smooth(m), props=["C07", "C03"], timeout=300),
             Unit("Mesh.from_triangulation", "tdgl.finite_volume.mesh:Mesh.from_triangulation / Mesh.compute_voronoi_areas_polygons", lambda m=None: _mc().run_from_triangulation(m), props=["C07", "C14"], timeout=300),
             Unit("make_mesh postconditions [bounded]", "tdgl.device.device:Device.make_mesh (Triangle, qhull)", run_native_quick, props=["C07"], timeout=600, kind="bounded")]
@@ -614,6 +616,11 @@ def replay(unit, obl):
         r = c06.replay_terminal_info(obl)
         if r.get("confirmed"):
             return r
+    if unit == "tdgl.geometry helpers":
+        from checks import geometry_common
+        bad, n = geometry_common.native(0)
+        if bad:
+            return dict(confirmed=True, failing_input=bad[0], n_failing=len(bad), evaluations=n, tdgl_file=tdgl.__file__)
     if unit in ("get_edges", "Mesh.find_boundary_indices", "make_adj_directed_tri_indices", "get_dual_edge_lengths", "Mesh.smooth"):
         bad, n = _mc().native(0)
         if bad:
